@@ -267,8 +267,15 @@ func runC18() procxResult {
 			Script: map[string][]string{"t": script, "u": script2}}
 	}
 	tplScript := []string{"cat <<'VERIF_EOF_S'\nI_S=<<{{ .s }}>>;\nVERIF_EOF_S", `printf 'I_N=<<%s>>;' '{{ .n }}'`, `printf 'I_L=<<%s>>;' '{{ .l }}'`, `printf 'I_M=<<%s>>;' '{{ .m.k }}'`, `printf 'I_F=<<%s>>;' '{{ .f }}'`}
+	// the same templates in a pipeline whose pipeline- and task-level ENVIRONMENT uses the very names of the job's
+	// variables (and the name reserved for the job identity): a script is rendered with the variables of its job, the
+	// environment is what the commands see - the two name spaces do not leak into each other
+	const bogusJob = "00000000-0000-4000-8000-00000000dead"
+	tplEnvScript := append(append([]string{}, tplScript...), `printf 'I_ENVS=<<%s>>;' "$s"`, `printf 'I_ENVF=<<%s>>;' "$f"`)
 	defs := mkDefs(map[string]PipeCfg{"p1": mkPipe(0), "p2": mkPipe(1),
-		"tpl": {Conc: 2, QL: -1, Graph: graphOne, Script: map[string][]string{"a": tplScript}}})
+		"tpl": {Conc: 2, QL: -1, Graph: graphOne, Script: map[string][]string{"a": tplScript}},
+		"tplenv": {Conc: 2, QL: -1, Graph: graphOne, Script: map[string][]string{"a": tplEnvScript}, Env: map[string]string{"f": "ENV-F", "l": "ENV-L"},
+			TaskEnv: map[string]map[string]string{"a": {"s": "ENV-S", "n": "ENV-N", "m": "ENV-M", taskctl.JobIDVariableName: bogusJob}}}})
 	pw := newProcWorld(defs, 0)
 	defer pw.close()
 	j1, err1 := pw.r.ScheduleAsync("p1", prunner.ScheduleOpts{})
@@ -281,6 +288,7 @@ func runC18() procxResult {
 	varsB := map[string]interface{}{"s": "STRING B", "n": 7000000, "l": []interface{}{"z"}, "m": map[string]interface{}{"k": "deep b"}, "f": 0.1234567891}
 	t1, _ := pw.r.ScheduleAsync("tpl", prunner.ScheduleOpts{Variables: varsA})
 	t2, _ := pw.r.ScheduleAsync("tpl", prunner.ScheduleOpts{Variables: varsB})
+	te1, _ := pw.r.ScheduleAsync("tplenv", prunner.ScheduleOpts{Variables: varsA})
 	bad, errBad := pw.r.ScheduleAsync("tpl", prunner.ScheduleOpts{Variables: map[string]interface{}{"s": "x", taskctl.JobIDVariableName: j1.ID.String()}})
 	for job, j := range []*prunner.PipelineJob{j1, j2} {
 		v, ok := pw.wait(j.ID, 60*time.Second)
@@ -354,6 +362,36 @@ func runC18() procxResult {
 			res.Distinct++
 			if f[key] != buf.String() {
 				res.add("template:"+key, fmt.Sprintf("script %s of job with variables %v rendered %q, want %q (exactly the job's own variables)", expr, vars, f[key], buf.String()))
+			}
+		}
+	}
+	if te1 != nil {
+		v, ok := pw.wait(te1.ID, 30*time.Second)
+		if !ok {
+			res.inconclusive("template job with colliding env names did not finish within 30s")
+		} else if v.LastError != "" || !v.Completed {
+			res.add("template-env-collision:job", fmt.Sprintf("a job whose definition uses the names of its variables as environment names does not finish cleanly: %q", v.LastError))
+		} else {
+			out, err := pw.output(te1.ID, "a", "stdout")
+			res.Cases++
+			if err != nil {
+				res.add("template-env-collision:logs", fmt.Sprintf("the output of a task whose definition sets an environment variable named %s is not stored under its own job: %v", taskctl.JobIDVariableName, err))
+			}
+			if _, err2 := pw.output(uuid.FromStringOrNil(bogusJob), "a", "stdout"); err2 == nil {
+				res.add("template-env-collision:foreign-job", fmt.Sprintf("an environment variable named %s redirected the task's output to the job id it names", taskctl.JobIDVariableName))
+			}
+			f := parseFrames(out)
+			for key, expr := range map[string]string{"I_S": "{{ .s }}", "I_N": "{{ .n }}", "I_L": "{{ .l }}", "I_M": "{{ .m.k }}", "I_F": "{{ .f }}"} {
+				var buf bytes.Buffer
+				template.Must(template.New("x").Parse(expr)).Execute(&buf, varsA)
+				res.Cases++
+				res.Distinct++
+				if f[key] != buf.String() {
+					res.add("template-env-collision:"+key, fmt.Sprintf("script %s rendered %q, want %q: the job's variable, not the environment variable of the same name", expr, f[key], buf.String()))
+				}
+			}
+			if f["I_ENVS"] != "ENV-S" || f["I_ENVF"] != "ENV-F" {
+				res.add("template-env-collision:env", fmt.Sprintf("the commands see $s=%q $f=%q, want the task- / pipeline-level values ENV-S / ENV-F (job variables are not environment)", f["I_ENVS"], f["I_ENVF"]))
 			}
 		}
 	}
@@ -659,6 +697,48 @@ func runC19(tier string, part, parts int) procxResult {
 			res.Cases++
 			if code != 404 {
 				res.add("unknown-task-not-refused", fmt.Sprintf("a log request for a task the job does not have answers %d", code))
+			}
+			// ... also when the requested name is a decoration of a task the job does have (path elements, case, blanks,
+			// a prefix / an extension, another job's directory): a name is a task of the job or it is not
+			var other string
+			for _, n := range names {
+				if oj := started[n]; oj.ID != j.ID {
+					other = oj.ID.String()
+					break
+				}
+			}
+			var taskNames []string
+			for tn := range js.tasks {
+				taskNames = append(taskNames, tn)
+			}
+			sort.Strings(taskNames)
+			for _, tn := range taskNames {
+				var decorated []string
+				for _, d := range []string{"x/%s", "./%s", "%s/", "%s/.", "../" + other + "/%s", "/%s", "%s ", " %s", "%sx", "%s%%00", "%s.log", "%s-stdout"} {
+					decorated = append(decorated, fmt.Sprintf(d, tn))
+				}
+				if up := strings.ToUpper(tn); up != tn {
+					decorated = append(decorated, up)
+				}
+				if len(tn) > 1 {
+					decorated = append(decorated, tn[:len(tn)-1])
+				}
+				for _, dn := range decorated {
+					isTask := false
+					for _, x := range taskNames {
+						if x == dn {
+							isTask = true
+						}
+					}
+					if isTask {
+						continue
+					}
+					code, _ := apiGet(pw.h, "GET", "/job/logs?id="+j.ID.String()+"&task="+url.QueryEscape(dn), "")
+					res.Cases++
+					if code != 404 {
+						res.add("unknown-task-not-refused:decorated-name", fmt.Sprintf("a log request for task %q, which the job does not have (it has %q), answers %d", dn, taskNames, code))
+					}
+				}
 			}
 		}
 	}
